@@ -84,7 +84,8 @@ type histPlan struct {
 	phase1  []api.Event // fired while the plugins register
 	phase2  []api.Event
 	stop    []int       // positions in plugins of the plugins that stop after phase 2 …
-	phase3  []api.Event // … and the requests fired after that (no registration follows)
+	restart []int       // … those of them that come back as a NEW instance with the same index and name (a restarted plugin) …
+	phase3  []api.Event // … and the requests fired after that (no other registration follows)
 	g       int
 	sleep   time.Duration // every plugin's handler (not the observer's) takes this long
 }
@@ -247,6 +248,40 @@ func runHistory(c *hx.Ctx, r *rand.Rand, stream string, hid int, plan histPlan) 
 			return nil, fmt.Errorf("history %d: stopped plugin %s never saw its connection close", hid, plugs[i].name)
 		}
 	}
+	// restarted plugins: a new connection registers under the index and name of the instance that just went away;
+	// no request is processed in between, so nothing has pruned the old instance yet
+	late := map[int]bool{}
+	for _, i := range plan.restart {
+		time.Sleep(30 * time.Millisecond) // let the runtime notice that the old connection is gone
+		sp := plan.plugins[i]
+		sp.ID = len(plan.plugins) + 1
+		sp.Kind, sp.Note = "stub", "restarted instance of plugin "+fmt.Sprint(plan.plugins[i].ID)
+		p := newPlug(e, sp.Idx, sp.Name, api.EventMask(sp.Raw))
+		plan.plugins = append(plan.plugins, sp)
+		plugs = append(plugs, p)
+		startErr = append(startErr, nil)
+		late[len(plugs)-1] = true
+		started := make(chan error, 1)
+		go func() { started <- p.startStub(e.sock) }()
+		select {
+		case err := <-started:
+			if err != nil {
+				return nil, fmt.Errorf("history %d: restarted plugin %s: %w", hid, p.name, err)
+			}
+		case <-time.After(30 * time.Second):
+			return nil, &errStalled{what: "a restarted plugin's registration had not finished after 30 s",
+				info: map[string]interface{}{"stream": stream, "history": hid, "plugins": plan.plugins}}
+		}
+		select {
+		case <-p.synced:
+		case <-time.After(10 * time.Second):
+			return nil, fmt.Errorf("history %d: restarted plugin %s was not synchronized", hid, p.name)
+		}
+	}
+	if len(plan.restart) > 0 && !e.barrierWithin(wedgeWait) {
+		return nil, &errStalled{what: "the plugin synchronisation lock could not be taken for 20 s after a plugin restarted",
+			info: map[string]interface{}{"stream": stream, "history": hid, "plugins": plan.plugins}}
+	}
 	if len(plan.phase3) > 0 {
 		fireAll(plan.phase3, 1+len(plan.phase1)+len(plan.phase2), plan.g)
 		if err := waitAll("requests after a plugin stopped"); err != nil {
@@ -284,6 +319,9 @@ func runHistory(c *hx.Ctx, r *rand.Rand, stream string, hid int, plan histPlan) 
 		if stopped[i] {
 			sp.Gone = gonePos
 		}
+		if late[i] {
+			sp.Lo, sp.Hi = gonePos, gonePos
+		}
 		first := total
 		for _, inv := range p.invocations() {
 			rid := ridOf(inv.Pod, inv.Ctr)
@@ -293,8 +331,8 @@ func runHistory(c *hx.Ctx, r *rand.Rand, stream string, hid int, plan histPlan) 
 			}
 		}
 		sp.Reg = first
-		if sp.Reg > hi {
-			sp.Reg = hi
+		if sp.Reg > sp.Hi {
+			sp.Reg = sp.Hi
 		}
 		cs.Plugins = append(cs.Plugins, sp)
 	}
@@ -666,6 +704,56 @@ func driveEvents(c *hx.Ctx) error {
 		c.Count(fmt.Sprintf("events.leave.rank_%d_of_%d", rank, k), 1)
 	}
 
+	// --- stream "restart": a plugin goes away and a new instance with the same index and name registers before any
+	// request has pruned the old one; or two live instances share index and name and one of them closes.  Every
+	// live subscribed instance must get each event exactly once.
+	rr := c.Rand("events/restart")
+	rsh := c.NewShard("restart", imports, "ev_case", "corr_events", "holds_events", 40)
+	noContribution := []api.Event{api.Event_RUN_POD_SANDBOX, api.Event_STOP_POD_SANDBOX, api.Event_REMOVE_POD_SANDBOX,
+		api.Event_POST_CREATE_CONTAINER, api.Event_START_CONTAINER, api.Event_POST_START_CONTAINER,
+		api.Event_POST_UPDATE_CONTAINER, api.Event_REMOVE_CONTAINER, api.Event_POST_UPDATE_POD_SANDBOX, api.Event_UPDATE_POD_SANDBOX}
+	pickNC := func(n int) []api.Event {
+		var o []api.Event
+		for i := 0; i < n; i++ {
+			o = append(o, noContribution[rr.Intn(len(noContribution))])
+		}
+		return o
+	}
+	for h := 0; h < c.Pick(12, 60); h++ {
+		k := 3 + rr.Intn(3)
+		plan := histPlan{g: 1 + rr.Intn(3)}
+		for i, ix := range rr.Perm(99)[:k] {
+			plan.plugins = append(plan.plugins, evPlugin{ID: i + 1, Idx: fmt.Sprintf("%02d", ix+1), Name: fmt.Sprintf("R%d", i+1), Raw: int32(api.ValidEvents), Kind: "stub"})
+		}
+		who := rr.Intn(k)
+		if h%2 == 0 {
+			// restart
+			plan.stop, plan.restart = []int{who}, []int{who}
+			plan.phase2 = randEvents(rr, 4+rr.Intn(6))
+			plan.phase3 = randEvents(rr, 8+rr.Intn(8))
+			c.Count("events.restart.restarted", 1)
+		} else {
+			// twins: a second live instance under the same index and name (only events without contributions: the two
+			// would otherwise collide in the merged result), then one of the two closes
+			twin := plan.plugins[who]
+			twin.ID = k + 1
+			plan.plugins = append(plan.plugins, twin)
+			plan.stop = []int{[]int{who, k}[rr.Intn(2)]}
+			plan.phase2 = pickNC(4 + rr.Intn(6))
+			plan.phase3 = pickNC(8 + rr.Intn(8))
+			c.Count("events.restart.twins", 1)
+		}
+		cs, err := runHistory(c, rr, "restart", h, plan)
+		if err != nil {
+			if stalled(err) {
+				return nil
+			}
+			return err
+		}
+		emit(rsh, cs)
+		c.Eval(fmt.Sprintf("restart/%d/%d", c.Seed, h), true)
+	}
+
 	// --- stream "budget": the request time-out bounds each CALL, not the whole request: with a short
 	// time-out T, three or four all-events plugins whose handlers each take 0.42 T (together more than T)
 	// must each be asked once, in index order, for every event, and still be there for the next one
@@ -787,6 +875,6 @@ func driveEvents(c *hx.Ctx) error {
 		c.Eval(fmt.Sprintf("wire/%d/%d", c.Seed, h), true)
 	}
 	c.Stats.Exhaustive = !c.Quick()
-	c.Stats.Rule = "histories: a fresh Adaptation per history, an all-events observer at index 00, 2-8 plugins (real stub or hand-made mux+ttrpc session) with random and equal indices and random masks registering in random order/timing while 0-24 requests run, then 30-59 requests over the thirteen entry points from 1-6 concurrent goroutines; non-trivial = concurrent callers or a plugin registered amid requests; in a third of the histories one or two plugins stop after two thirds of the requests. leave: 4-6 all-events plugins with distinct indices, the plugin of each index rank in turn stops mid-history, 12-21 further requests without any registration. budget: request time-out 600 ms, 3-4 all-events plugins whose handlers each take 0.42 x the time-out (together more than the time-out), two state-change events and one request; sweep: eight masks per history x all thirteen events (thorough: every mask 1..ValidEvents, exhaustive; quick: 256 sampled masks). wiremasks: masks only a raw session can send (0 = everything, bits outside ValidEvents, sign bit)."
+	c.Stats.Rule = "histories: a fresh Adaptation per history, an all-events observer at index 00, 2-8 plugins (real stub or hand-made mux+ttrpc session) with random and equal indices and random masks registering in random order/timing while 0-24 requests run, then 30-59 requests over the thirteen entry points from 1-6 concurrent goroutines; non-trivial = concurrent callers or a plugin registered amid requests; in a third of the histories one or two plugins stop after two thirds of the requests. leave: 4-6 all-events plugins with distinct indices, the plugin of each index rank in turn stops mid-history, 12-21 further requests without any registration. restart: 3-5 all-events plugins; either one stops and a new instance registers under the same index and name before any request has pruned the old one, or two live instances share index and name and one of them closes; 8-15 further requests; budget: request time-out 600 ms, 3-4 all-events plugins whose handlers each take 0.42 x the time-out (together more than the time-out), two state-change events and one request; sweep: eight masks per history x all thirteen events (thorough: every mask 1..ValidEvents, exhaustive; quick: 256 sampled masks). wiremasks: masks only a raw session can send (0 = everything, bits outside ValidEvents, sign bit)."
 	return nil
 }
